@@ -2076,6 +2076,31 @@ class Interp:
                 x = Term("exc", "StopIteration")
                 self.emit("raise", node, value=x)
                 raise _Raise(x, node)
+        if name == "map" and len(args) == 2 and not kwargs:
+            items = self.concrete_iter(args[1])
+            if items is not None:
+                return Lst([self.apply(args[0], [x], {}, [], node, frame, False) for x in items])
+        if name == "filter" and len(args) == 2 and not kwargs:
+            items = self.concrete_iter(args[1])
+            f_ = args[0]
+            if items is not None:
+                keep, decided = [], True
+                for x in items:
+                    if isinstance(f_, Term) and f_.op == "attr" and isinstance(f_.args[0], Const) and f_.args[0].v is None and f_.args[1] in ("__ne__", "__eq__"):
+                        # filter(None.__ne__, xs): identity with None
+                        isnone = (x.v is None) if isinstance(x, Const) else (False if isinstance(x, (Obj, Tup, Lst, Dct, Cls, Fn)) or (isinstance(x, Term) and x.pytype) else None)
+                        t_ = None if isnone is None else (not isnone if f_.args[1] == "__ne__" else isnone)
+                    elif isinstance(f_, Const) and f_.v is None:
+                        t_ = self.truth_of(x)
+                    else:
+                        t_ = self.truth_of(self.apply(f_, [x], {}, [], node, frame, False))
+                    if t_ is None:
+                        decided = False
+                        break
+                    if t_:
+                        keep.append(x)
+                if decided:
+                    return Lst(keep)
         if name == "iter" and len(args) == 1 and self.concrete_iter(args[0]) is not None:
             return Lst(self.concrete_iter(args[0]))
         if name == "zip" and len(args) >= 1:
@@ -2345,6 +2370,8 @@ class Interp:
                     raise _Raise(Term("exc", "ValueError"), node)
             if meth == "copy" and not args:
                 return Lst(list(base.items))
+        if isinstance(base, Const) and isinstance(base.v, str) and meth in ("startswith", "endswith") and len(args) == 1 and isinstance(args[0], (Tup, Lst)) and all(isinstance(x, Const) and isinstance(x.v, str) for x in args[0].items):
+            return Const(getattr(base.v, meth)(tuple(x.v for x in args[0].items)))
         if isinstance(base, Const) and isinstance(base.v, str) and all(isinstance(a, Const) for a in args) and not kwargs:
             if meth in ("strip", "lower", "upper", "startswith", "endswith", "find", "rfind", "split", "format", "lstrip", "rstrip", "encode", "replace", "join"):
                 try:
